@@ -37,6 +37,9 @@ def gen_file(rng, fid, journald):
     profs = rng.sample(logsgen.PROFILES, nprof)
     if rng.random() < 0.12:
         profs[0] = rng.choice(["bar baz", "My App"])      # the kernel hex-encodes such a profile name
+    for pz in list(profs):
+        if "." in pz and rng.random() < 0.5:
+            profs.append(pz.replace(".", "x"))              # a decoy that only a regex reading of the filter would select
     n = rng.randint(5, 400 if rng.random() < 0.2 else 60)
     lines = []
     recs = []
